@@ -15,19 +15,19 @@ TECH = {
     "C05": "runtime path validator (steps, band, corners) + path-cost oracle on every returned path; known finding classified by a bug-compatible back-tracking model",
     "C06": "exhaustive block enumeration with an independent pair enumerator and single-pair oracle table, both engines, all container forms",
     "C07": "ThreadSanitizer native OpenMP harness (GOMP_parallel fork/join modelled by linker wrap) + linker-wrapped call-history log (exactly-once per pair) + bitwise serial/parallel output oracle + ASan OpenMP build; Python-level OpenMP/multiprocessing vs serial",
-    "C08": "AddressSanitizer + UndefinedBehaviorSanitizer: native driver with exact-size buffers over an exhaustive small grid, ASan build of the extension under the Python workloads, valgrind memcheck in thorough",
+    "C08": "AddressSanitizer + UndefinedBehaviorSanitizer: native driver with exact-size buffers over an exhaustive small grid (sentinel check of advertised outputs), the same driver as a libFuzzer target (coverage-guided, fixed seeds), ASan build of the extension under the Python workloads, valgrind memcheck in thorough",
     "C09": "icontract postconditions on the bound routines: sandwich LB_Keogh <= DTW <= ED against the same engine, independent Euclidean reference, C vs Python",
     "C10": "relational (metamorphic) runtime laws between related calls on one engine; no oracle",
     "C11": "C01/C02/C04/C05 monitors instantiated with vector point distances + d=1 reduction law + container differential",
-    "C12": "runtime postconditions on every DBA step: definition via reference-DP paths when unique, range, fixed point, mask independence, objective monotonicity, step counter",
-    "C13": "brute-force reference for the matching function, stream monitor on kbest_matches, icontract class invariant, interleaved-iterator history vs fresh objects",
-    "C14": "exhaustive k-NN reference + op-by-op history check against fresh objects + nested C03 monitor on the search's own dtw.distance calls",
+    "C12": "runtime postconditions on every DBA step: definition via reference-DP paths when unique, range, fixed point, mask independence (explicit and default initial average, nb_initial_samples), objective monotonicity, step counter",
+    "C13": "brute-force reference for the matching function, stream monitor on kbest_matches, prefix/stop-rule monitor on best_matches and best_matches_knee, *_fast vs use_c objects, icontract class invariant, interleaved-iterator history vs fresh objects, logical step bound",
+    "C14": "exhaustive k-NN reference + op-by-op history check against fresh objects + nested C03 monitor on the search's own dtw.distance calls + match-container protocol (len/index/slice/get_ith_value) + *_fast operations",
     "C15": "online trace checker on the API's merge_hook events against the captured distance matrix + partition/tree postconditions + SciPy differential",
     "C16": "postconditions on KMeans.fit (partition, k means, nearest-mean by recomputed distances, iteration bound) + monitor_distances callback trace",
     "C17": "independent NW DP oracle (self-checked by enumeration of all alignments) + alignment consistency validator over all traceback orders",
-    "C18": "cell-local recurrence invariant walked over the returned matrix, C/Python differential incl. compact slices, stream monitor with consumed-cell set on kbest_matches, restart histories",
+    "C18": "cell-local recurrence invariant walked over the returned matrix, C/Python differential incl. compact slices, stream monitor with consumed-cell set on kbest_matches / kbest_matches_store (buffer 0, negative, positive; keep/restart histories vs fresh objects), logical step bound",
     "C19": "closed-form element-wise references, monotonicity/range laws and re-application check on every call",
-    "C20": "global byte-level snapshot monitor on 36 public routines (icontract snapshot/ensure, nested calls included) + container differential + shared-dictionary/model histories + NumPy-blocked workers",
+    "C20": "global byte-level snapshot monitor on 36 public routines (icontract snapshot/ensure, nested calls included) + container differential (distances, matrices, DBA, KMeans, LinkageTree) + shared-dictionary/model histories + NumPy-blocked workers",
 }
 NOTE = {
 }
